@@ -27,13 +27,13 @@ def keyList : Nat → List (List Nat)
 def statPrefixes : List (List Nat) := [[105, 110, 116, 101, 103, 101, 114], [114, 101, 97, 108], [116, 121, 112, 101], [99, 97, 108, 108], [115, 117, 98, 114, 111, 117, 116, 105, 110, 101], [117, 115, 101]]
 def statIgnoreCase : Bool := true
 
-/-- prefixes accepted (after leading white space) by the `omp` regex -/
-def ompPrefixes : List (List Nat) := []
-def ompIgnoreCase : Bool := false
+/-- prefixes accepted (after leading white space) by the `omp` regex; compared case-insensitively, stored in lower case -/
+def ompPrefixes : List (List Nat) := [[33, 36, 111, 109, 112]]
+def ompIgnoreCase : Bool := true
 
-/-- prefixes accepted (after leading white space) by the `acc` regex -/
-def accPrefixes : List (List Nat) := []
-def accIgnoreCase : Bool := false
+/-- prefixes accepted (after leading white space) by the `acc` regex; compared case-insensitively, stored in lower case -/
+def accPrefixes : List (List Nat) := [[33, 36, 97, 99, 99]]
+def accIgnoreCase : Bool := true
 
 /-- prefixes accepted (after leading white space) by the `comment` regex -/
 def commentPrefixes : List (List Nat) := [[33]]
